@@ -20,8 +20,31 @@ LIGHT = {'C03', 'C04', 'C05', 'C06', 'C10', 'C16', 'C20'}
 WIDE = {'C01', 'C02', 'C03', 'C04', 'C05'}
 
 
-def plan(prop, tier, seed):
-    """Return a list of (table, exhaustive_queries, label_variant)."""
+def shape_set(prop, tier):
+    """Name of the shape set (a definition of spec/TableGen.tla) whose tables TLC enumerates for this check."""
+    light = prop in LIGHT
+    if tier == 'quick':
+        return 'ShapesQuickC16' if prop == 'C16' else 'ShapesQuickLight' if light else 'ShapesQuick'
+    if light:
+        return 'ShapesThoroughBig'
+    return 'ShapesThoroughMid4' if prop in ('C01', 'C02', 'C08', 'C18') else 'ShapesThoroughMid'
+
+
+def load_tables(path):
+    """The exhaustive tables as printed by TLC (TableGen.tla), one JSON object per line."""
+    import json
+    out = []
+    with open(path, encoding='utf-8') as f:
+        for line in f:
+            d = json.loads(line)
+            out.append(corpus.Table(d['n'], d['m'], d['rows'], f"ex{d['n']}x{d['m']}"))
+    return out
+
+
+def plan(prop, tier, seed, ex_tables=None):
+    """Return a list of (table, exhaustive_queries, label_variant).
+
+    ex_tables: the exhaustive part as enumerated by TLC; if None it is enumerated here (same shapes)."""
     out = []
     light = prop in LIGHT
     if tier == 'quick':
@@ -38,7 +61,7 @@ def plan(prop, tier, seed):
         shapes = SMALL + MID[:2] + [(4, 2), (2, 4)]
     if prop == 'C18':
         struct = [t for t in struct if t.m <= 10]
-    for t in corpus.exhaustive(shapes):
+    for t in (ex_tables if ex_tables is not None else corpus.exhaustive(shapes)):
         out.append((t, True))
     for t in struct:
         out.append((t, False))
